@@ -16,6 +16,8 @@ def sig_of(rej, scn):
         return "C10:shutdown-hang:" + re.sub(r"[^A-Za-z]+", "-", det)[:50]
     if why == "goroutine-leak":
         return "C10:goroutine-leak:" + re.sub(r"[^A-Za-z0-9.]+", "-", ",".join(rej.get("leaked") or []))[:80]
+    if why == "goroutine-outlives-suspend":
+        return "C10:goroutine-outlives-suspend:" + re.sub(r"[^A-Za-z0-9.]+", "-", ",".join(rej.get("sleaked") or []))[:80]
     if why == "caller-stuck":
         return "C10:caller-stuck:" + re.sub(r"[^A-Za-z]+", "-", ",".join(rej.get("stuck") or []))[:60]
     if why in ("query-deadlock", "query-stuck-after-close"):
@@ -34,7 +36,7 @@ def model_checks(c, specs, jobs):
     def one(j):
         return real(specs, j[0], j[1], {}, j[2], os.path.join(c.scratch, "mcp-" + os.path.splitext(j[1])[0]), 3000,
                     ("-noGenerateSpecTE",))
-    with ThreadPoolExecutor(4) as ex:
+    with ThreadPoolExecutor(6) as ex:
         outs = dict(zip([(j[0], j[1]) for j in jobs], ex.map(one, jobs)))
     c._tlc = lambda specdir, tla, cfg, *a, **k: outs[(tla, cfg)]
     try:
@@ -62,7 +64,11 @@ def main(c):
                 # return; the as-found shape deadlocks with two callers, and a never-answered query blocks its caller for good
                 ("Query.tla", "Query_serial.cfg", 1, False), ("Query.tla", "Query_fixed.cfg", 2, False),
                 ("Query.tla", "Query_found.cfg", 1, True), ("Query.tla", "Query_found_never.cfg", 1, True),
-                ("Query.tla", "Query_serial_never.cfg", 1, True)]
+                ("Query.tla", "Query_serial_never.cfg", 1, True),
+                # Suspend beside an input goroutine that posts to a full queue: released and waited for, nothing outlives
+                # Suspend (also when the input goroutine shuts down itself); as found it does; waiting for oneself deadlocks
+                ("SuspendLeave.tla", "SuspendLeave_fixed_main.cfg", 1, False), ("SuspendLeave.tla", "SuspendLeave_fixed_signal.cfg", 1, False),
+                ("SuspendLeave.tla", "SuspendLeave_found.cfg", 1, True), ("SuspendLeave.tla", "SuspendLeave_selfwait.cfg", 1, True)]
         ok = model_checks(c, specs, jobs)
         for tla, cfg, _, expect in jobs:
             if not expect and not ok[cfg]:
@@ -72,6 +78,8 @@ def main(c):
         c.cov["resize_flag_as_found_refuted"] = not ok["ResizeFlag_found.cfg"]
         c.cov["query_handoff_as_found_models_deadlock"] = sum(
             1 for cfg in ("Query_found.cfg", "Query_found_never.cfg", "Query_serial_never.cfg") if not ok[cfg])
+        c.cov["suspend_leave_as_found_and_selfwait_refuted"] = sum(
+            1 for cfg in ("SuspendLeave_found.cfg", "SuspendLeave_selfwait.cfg") if not ok[cfg])
     td = c.drive(drv, "c10", replay=c.replay)
     rejects, _ = c.validate_traces(specs, "Conc_Trace.tla", "Conc_Trace.cfg", td)
     if not c.replay:
@@ -79,6 +87,7 @@ def main(c):
             ("race report", selfmut.conc("race", "WARNING: DATA RACE")),
             ("Close did not return", selfmut.conc("returned", False)),
             ("goroutine left", selfmut.conc("leaked", ["vaxis.(*Vaxis).openTty.func1"])),
+            ("goroutine left after Suspend", selfmut.conc("sleaked", ["vaxis.(*Vaxis).openTty.func1"])),
             ("poster order", selfmut.poster_order),
             ("resize request lost", selfmut.resize_lost),
             ("answered query call never returned", selfmut.conc("queries", [{"kind": "bg", "reply": "late", "before": False, "after": True}])),
